@@ -1,9 +1,13 @@
 (* Properties_C15.v -- C15: multibyte and wide conversions.  Only theorem statements, each closed by [exact].
    Proved: the codec laws for every encodable code point (decode . encode = id, announced length, byte range).
-   The wrapper post-processing is covered by the correspondence (models in ModConv.v); its wp-level
-   theorems are the next proof target. *)
+   Wrapper level (ProofsConv.v): with the C library's converters modelled as storing as many elements as they are asked
+   for, every store of mbstowcs_s, wcstombs_s, wcrtomb_s, wctomb_s lies inside dest[0..dmax) or the result cell, for every
+   source and every len (len > dmax included), both locales, both configurations -- the statement established by the
+   'never more than dmax' repairs; the region where a known object size makes the failing exit clear the whole object is
+   delimited by conv_bos_ok and refuted outside it.  The functional part of the wrappers (result = reference conversion)
+   is covered by the correspondence (models in ModConv.v vs implementation vs Python/C library references). *)
 From Coq Require Import List ZArith Lia Bool.
-From SC Require Import Base Cfg Utf8 ModConv.
+From SC Require Import Base Cfg Comb CombProofs Utf8 ModConv ProofsConv PropDefs.
 From SC.Gen Require Import Consts.
 Local Open Scope Z_scope.
 Theorem C15_decode_encode : forall cp, enc_valid cp = true -> dec_list (utf8_enc cp) = Some (cp, enc_len cp).
@@ -13,6 +17,28 @@ Theorem C15_encode_bytes_and_length : forall cp, 0 <= cp < 0x200000 ->
   Forall (fun b => 0 <= b < 256) (utf8_enc cp) /\ Z.of_nat (length (utf8_enc cp)) = enc_len cp.
 Proof. exact utf8_enc_bytes. Qed.
 Print Assumptions C15_encode_bytes_and_length.
+Theorem C15_mbstowcs_s_stores : forall c utf8 retvalp dest dmax src len destbos, 0 < wchar_w c -> 0 <= dmax -> 0 <= len ->
+  conv_bos_ok (wchar_w c) dmax len destbos ->
+  C01_holds (convP dest (dmax * wchar_w c) retvalp 8) (mbstowcs_s c utf8 retvalp dest dmax src len destbos).
+Proof. intros. apply C01_from_writes. exact (mbstowcs_s_writes c utf8 retvalp dest dmax src len destbos H H0 H1 H2). Qed.
+Print Assumptions C15_mbstowcs_s_stores.
+Theorem C15_wcstombs_s_stores : forall c utf8 retvalp dest dmax src len destbos, 0 <= dmax -> 0 <= len ->
+  conv_bos_ok 1 dmax len destbos ->
+  C01_holds (convP dest dmax retvalp 8) (wcstombs_s c utf8 retvalp dest dmax src len destbos).
+Proof. intros. apply C01_from_writes. exact (wcstombs_s_writes c utf8 retvalp dest dmax src len destbos H H0 H1). Qed.
+Print Assumptions C15_wcstombs_s_stores.
+Theorem C15_wcrtomb_s_stores : forall c utf8 retvalp dest dmax wc ps destbos, 0 <= dmax ->
+  C01_holds (convP dest dmax retvalp 8) (wcrtomb_s c utf8 retvalp dest dmax wc ps destbos).
+Proof. intros. apply C01_from_writes. exact (wcrtomb_s_writes c utf8 retvalp dest dmax wc ps destbos H). Qed.
+Print Assumptions C15_wcrtomb_s_stores.
+Theorem C15_wctomb_s_stores : forall c utf8 retvalp dest dmax wc destbos, 0 <= dmax ->
+  C01_holds (convP dest dmax retvalp 4) (wctomb_s c utf8 retvalp dest dmax wc destbos).
+Proof. intros. apply C01_from_writes. exact (wctomb_s_writes c utf8 retvalp dest dmax wc destbos H). Qed.
+Print Assumptions C15_wctomb_s_stores.
+(* known finding conv-known-bos-len-clears-object: dmax elements fit the known object, len elements do not: the failing exit clears the object *)
+Theorem C15_mbstowcs_s_bos_len_refuted : ~ writes_in (convP 1000 (2 * 4) 5000 8) (mbstowcs_s cfg_default true 5000 1000 2 3000 20 40).
+Proof. exact mbstowcs_s_bos_len_refuted. Qed.
+Print Assumptions C15_mbstowcs_s_bos_len_refuted.
 Theorem C15_cfg_repo_wf : wf_cfg cfg_repo.
 Proof. exact wf_cfg_repo. Qed.
 Example C15_example : dec_list (utf8_enc 0x20AC) = Some (0x20AC, 3) /\ utf8_enc 0x20AC = (0xE2 :: 0x82 :: 0xAC :: nil).
